@@ -30,7 +30,7 @@ theorem accPV_eq (a : Acc) : accPV a = .arr (a.toList.map rowPV) := rfl
 
 theorem pyIndex_arr_nat {l : List PV} {i : Nat} (h : i < l.length) :
     pyIndex (.arr l) (.int i) = .ok (l.getD i .none) := by
-  simp [pyIndex, normIndex_natCast h]
+  simp [pyIndex, pyIndexSeq, normIndex_natCast h]
 
 theorem pyLen_idxPV (l : List Nat) : pyLen (idxPV l) = .ok (.int l.length) := by simp [idxPV]
 
